@@ -408,6 +408,40 @@ PLANS = {
 }
 
 
+def _val(j):
+    if isinstance(j, list):
+        m = 0
+        for i, l in enumerate(j[1:]):
+            m |= l << (15 * i)
+        return -m if j[0] == 1 else m
+    return j
+
+
+def program_script(prog):
+    """recorded program (wreset, wload, w events) -> script line for `wrap --replay`"""
+    L = prog[0]["L"]
+    w = L[1]
+    steps = []
+    for e in prog[1:]:
+        if e["k"] == "wload":
+            steps.append(dict(op="load", d=e["d"], rawv=dict(raw=str(_val(e["v"]) % (1 << w)))))
+        elif e["k"] == "w":
+            st = dict(op=e["op"], d=e["d"], fm=e.get("fm", 0))
+            for k in ("a", "b"):
+                if k in e:
+                    st[k] = e[k]
+            if "as" in e:
+                st["as"] = e["as"][:2] if len(e["as"]) >= 2 else (e["as"] + e["as"] + [1, 1])[:2]
+            if "n" in e:
+                n = _val(e["n"])
+                if e["op"] in ("shl", "shr", "from_int"):
+                    st["n"] = max(-(1 << 62), min((1 << 62), n))
+                else:
+                    st["rawv"] = dict(raw=str(n % (1 << w)))
+            steps.append(st)
+    return dict(L=L, steps=steps)
+
+
 def describe(ev):
     """short human description of an event"""
     L = ev.get("L")
@@ -459,6 +493,9 @@ def run_check(pid, tier, seed, replay=None):
         with open(rfile, "w") as f:
             for ev in rp["events"]:
                 f.write(json.dumps(ev) + "\n")
+            if rp.get("program"):
+                # a step of a Wrapping<F> program: re-run the whole program up to that step (script format of the wrap bin)
+                f.write(json.dumps(program_script(rp["program"])) + "\n")
         gens = []
         for g in plan["gens"]:
             if g.get("replayable", True):
@@ -485,7 +522,7 @@ def run_check(pid, tier, seed, replay=None):
         if r["dev"] and r["dev"] in known_devs:
             kf_seen.setdefault(r["dev"], []).append(r)
         else:
-            violations.append(dict(kind="event", event=r["event"], dev=r["dev"], note=r["note"]))
+            violations.append(dict(kind="event", event=r["event"], dev=r["dev"], note=r["note"], program=r.get("program")))
     for dev, rs in kf_seen.items():
         k = known_devs[dev]
         log("KNOWN-FINDING: property=%s %s [%d events explained bit-for-bit by deviation %s; e.g. %s]"
@@ -496,7 +533,7 @@ def run_check(pid, tier, seed, replay=None):
         groups = violations[:12]
         for i, v in enumerate(groups):
             evs = [v["event"]] if v["kind"] == "event" else []
-            path = core.write_replay(pid, i, evs, dict(seed=seed, tier=tier, kind=v["kind"],
+            path = core.write_replay(pid, i, evs, dict(seed=seed, tier=tier, kind=v["kind"], program=v.get("program"),
                                                        detail=v.get("detail", ""), model=v.get("model", "")))
             log("VIOLATION property=%s replay=%s" % (pid, path))
             log("   " + (describe(v["event"]) if v["kind"] == "event" else "design model %s violated" % v["model"]))
